@@ -7,4 +7,8 @@ VARIANTS = [
  dict(id='c14-silent-score-np-sum', prop='C14', kind='silent', file=T, old="            scores.append(tmp.sum())\n", new="            scores.append(_np.sum(tmp))\n"),
  dict(id='c14-build-counters-aliased', prop='C14', file=T, expect='C14-D6', old="        tmp_counters = _np.copy(self._counters).astype(self.precision)\n", new="        tmp_counters = self._counters\n"),
  dict(id='c14-is-build-first', prop='C14', file='scared/analysis/template.py', expect='C14-D1', old="        self.is_build = True\n", new="        pass\n", allow_undecided=True),
+ dict(id='c14-pooled-covariance-biased', prop='C14', expect='C14-D9', file='scared/distinguishers/template.py', old="            self.pooled_covariance += (self._exxi[i] - tmp_matrix) / (tmp_counters[i] - 1)\n", new="            self.pooled_covariance += (self._exxi[i] - tmp_matrix) / tmp_counters[i]\n"),
+ dict(id='c14-score-not-normalised-by-samples', prop='C14', expect='C14-D9', file='scared/distinguishers/template.py', old="        self._scores += _np.array(scores) / traces.shape[1]\n", new="        self._scores += _np.array(scores) / traces.shape[0]\n"),
+ dict(id='c14-template-sign', prop='C14', expect='C14-D9', file='scared/distinguishers/template.py', old="            tmp_traces = traces - self.templates[self.get_template_index(data, i)]\n", new="            tmp_traces = traces + self.templates[self.get_template_index(data, i)]\n"),
+ dict(id='c14-silent-covariance-regrouped', prop='C14', kind='silent', file='scared/distinguishers/template.py', old="            self.pooled_covariance += (self._exxi[i] - tmp_matrix) / (tmp_counters[i] - 1)\n", new="            within = self._exxi[i] - tmp_matrix\n            self.pooled_covariance += within / (tmp_counters[i] - 1)\n"),
 ]
